@@ -51,9 +51,9 @@ func init() {
 		"bounded: all histories over the scenario alphabets up to the stated depth; data values outside the alphabets are not covered",
 	}
 	props["C01"] = propSpec{Checker: func() Checker { return chkC01{} }, Assume: common,
-		Runs: []runSpec{{"S-escrow", 5, 7, nil}, {"S-leased", 5, 6, nil}, {"S-life", 4, 6, nil}, {"S-collide", 2, 3, nil}}}
+		Runs: []runSpec{{"S-escrow", 7, 9, nil}, {"S-leased", 7, 9, nil}, {"S-life", 6, 8, nil}, {"S-collide", 2, 3, nil}}}
 	props["C02"] = propSpec{Checker: func() Checker { return chkC02{} }, Assume: common,
-		Runs: []runSpec{{Scenario: "S-grid", Grid: gridHistories}, {"S-meter", 6, 8, nil}, {"S-escrow", 5, 7, nil}, {"S-leased", 5, 6, nil}}}
+		Runs: []runSpec{{Scenario: "S-grid", Grid: gridHistories}, {"S-meter", 6, 8, nil}, {"S-escrow", 7, 9, nil}, {"S-leased", 7, 9, nil}}}
 	props["C06"] = propSpec{Checker: func() Checker { return chkC06{} }, Assume: []string{
 		"confinement is checked on the message-service path; the signature/ante path is checked separately through real signed DeliverTx (part ante-matrix)",
 		"bounded: S-collide (7 deployments with dseq 1,12,256,257,65536 over two owners, leases, bids) to the stated depth, plus S-life"},
@@ -74,7 +74,7 @@ func init() {
 			return extraResult{Name: "ante-matrix", Evals: int64(len(cases)), Samples: smp, Viols: viols,
 				Info: map[string]interface{}{"deliver_tx_cases": len(cases), "accepted": acc, "rejected": rej}}, err
 		},
-		Runs: []runSpec{{"S-collide", 3, 4, nil}, {"S-life", 4, 5, nil}}}
+		Runs: []runSpec{{"S-collide", 3, 4, nil}, {"S-life", 5, 7, nil}}}
 	props["C17"] = propSpec{Checker: func() Checker { return chkC17{} }, Assume: []string{
 		"bounded: all create/revoke sequences over 2 owners x 7 serials (0,1,255,256,257,2^64,2^159) plus two create requests naming another account, to the stated depth",
 		"certificates with serial 0 are produced by patching DER (the chain never verifies the self-signature)"},
@@ -84,7 +84,7 @@ func init() {
 		"expected events are derived from the pre/post state diff, so a change that is undone inside the same transaction is not expected to be announced",
 		"bounded: S-life / S-escrow / S-attr histories to the stated depth; codec grid over the colliding id set and prices 1, 2^63-1, 2^64, 10^30"},
 		Extra: func(th bool) (extraResult, error) { return CheckEventCodecs() },
-		Runs:  []runSpec{{"S-life", 5, 6, nil}, {"S-escrow", 5, 7, nil}, {"S-leased", 5, 6, nil}, {"S-attr", 6, 8, nil}}}
+		Runs:  []runSpec{{"S-life", 6, 8, nil}, {"S-escrow", 7, 9, nil}, {"S-leased", 7, 9, nil}, {"S-attr", 6, 8, nil}}}
 	props["C08"] = propSpec{Checker: func() Checker { return chkC08{} }, Assume: []string{
 		"the statement is one-directional (a bid is accepted ONLY IF ...): accepted bids are checked against the oracle on the pre-state; rejected bids are counted but not judged",
 		"bounded: MatchRequirements grid over requirement/own/attested subsets of {a=1,b=1,a=2}, auditor lists over {U1,U2} incl. duplicates; S-attr histories to the stated depth"},
@@ -94,7 +94,7 @@ func init() {
 		"one-directional as stated: every admitted create-deployment request satisfies every limit; rejected requests are only required to leave the state unchanged",
 		"bounded: all single boundary values and all pairs (thorough: arithmetic triples) of the limit dimensions; stored-state predicate on every reachable state of S-life"},
 		Extra: CheckAdmissionGrid,
-		Runs:  []runSpec{{"S-life", 4, 5, nil}}}
+		Runs:  []runSpec{{"S-life", 5, 7, nil}}}
 	props["C07"] = propSpec{Checker: func() Checker { return chkC07{} }, Assume: []string{
 		"map iteration order is the only in-process nondeterminism a handler can observe besides what the context provides (height, store); clocks and randomness are not read by the akash handlers",
 		"for maps with at most 8 entries (one bucket) the 8 start offsets are ALL possible iteration orders; iterations over multi-bucket maps are counted and make the run non-exhaustive",
@@ -102,11 +102,11 @@ func init() {
 		Extra: c07Extra, LooseReplay: true,
 		Runs:  []runSpec{{"S-attr", 5, 7, nil}, {"S-life", 3, 4, nil}, {"S-escrow", 3, 4, nil}}}
 	props["C03"] = propSpec{Checker: func() Checker { return chkC03{} }, Assume: common,
-		Runs: []runSpec{{"S-escrow", 5, 7, nil}, {"S-leased", 5, 6, nil}, {"S-life", 4, 6, nil}, {"S-collide", 2, 3, nil}}}
+		Runs: []runSpec{{"S-escrow", 7, 9, nil}, {"S-leased", 7, 9, nil}, {"S-life", 6, 8, nil}, {"S-collide", 2, 3, nil}}}
 	props["C04"] = propSpec{Checker: func() Checker { return chkC04{} }, Assume: common,
-		Runs: []runSpec{{"S-life", 5, 6, nil}, {"S-escrow", 5, 7, nil}, {"S-leased", 5, 6, nil}, {"S-collide", 2, 3, nil}}}
+		Runs: []runSpec{{"S-life", 6, 8, nil}, {"S-escrow", 7, 9, nil}, {"S-leased", 7, 9, nil}, {"S-collide", 2, 3, nil}}}
 	props["C05"] = propSpec{Checker: func() Checker { return chkC05{} }, Assume: common,
-		Runs: []runSpec{{"S-life", 5, 6, nil}, {"S-escrow", 5, 7, nil}, {"S-leased", 5, 6, nil}, {"S-collide", 2, 3, nil}}}
+		Runs: []runSpec{{"S-life", 6, 8, nil}, {"S-escrow", 7, 9, nil}, {"S-leased", 7, 9, nil}, {"S-collide", 2, 3, nil}}}
 }
 
 type replayFile struct {
